@@ -310,6 +310,7 @@ def run(ctx, prop, focus, restart_weight=False, light=False, cover_filter=None):
             cfg = dict(mine[i % len(mine)])
             cfg["seed"] = rnd.getrandbits(62)
             cfg["hangups"] = (i % 3 == 1)     # clients that go away while the server is processing
+            cfg["nolimit"] = (i % 4 == 3)     # handler without a length limit, requests without Content-Length
             behaviours.append({"cfg": cfg, "actions": a})
     # 2b. one behaviour per class of specification transition (breadth-first cover)
     if not light or cover_filter:
@@ -335,6 +336,7 @@ def run(ctx, prop, focus, restart_weight=False, light=False, cover_filter=None):
                 cfg = dict(mine[i % len(mine)])
                 cfg["seed"] = rnd.getrandbits(62)
                 cfg["hangups"] = (i % 4 == 2)
+                cfg["nolimit"] = (i % 5 == 4)
                 behaviours.append({"cfg": cfg, "actions": a})
                 ncov += 1
         ctx.notes["cover_behaviours_executed"] = ncov
@@ -357,7 +359,7 @@ def run(ctx, prop, focus, restart_weight=False, light=False, cover_filter=None):
     rpath = os.path.join(wd, "random.ndjson")
     rb = os.path.join(wd, "random-behaviours.json")
     forge = {"64": f64, "22": f22, "32": f32}
-    ws = [dict(w, hangups=(i % 2 == 1)) for i, w in enumerate(ws)]
+    ws = [dict(w, hangups=(i % 2 == 1), nolimit=(i % 3 == 2)) for i, w in enumerate(ws)]
     ctx.run_vh(["srv-random", "-n", 160 if quick else 3000, "-len", 16 if quick else 24, "-seed", ctx.seed,
                 "-cfgs", json.dumps(ws), "-forge", json.dumps(forge), "-focus", focus or 0, "-restarts", 30 if restart_weight else 2,
                 "-out", rpath, "-behaviours", rb], timeout=3000)
@@ -382,6 +384,7 @@ def run(ctx, prop, focus, restart_weight=False, light=False, cover_filter=None):
     ctx.notes["world_configurations"] = len(ws)
     ctx.notes["runs_from_tlc"] = n1
     ctx.notes["runs_from_random_driver"] = n2
+    ctx.notes["exchanges_without_content_length"] = sum(1 for e in real if "nolen" in (e.get("note") or ""))
     ctx.notes["exchanges_with_client_hangup"] = sum(1 for e in real if "hangup" in (e.get("note") or ""))
     ctx.notes["restarts_executed"] = sum(1 for e in real if e["kind"] == "restart")
     if focus and not forged:
